@@ -33,6 +33,7 @@ import PV.Model.Cleaning
 import PV.Model.BufStream
 import PV.Model.Tools2
 import PV.Model.CleaningThresholds
+import PV.Model.Pool
 /-
 One function per unit: `List String` (the operation's arguments) to one output line.
 -/
@@ -707,6 +708,38 @@ def bstreamU (op : String) (args : List String) : String :=
     | none => "bad-op"
   | _, _ => "bad-op"
 
+/-- util::Pool histories: `a<size>` | `c<delta>`; the answer line of harness op `pool.run`. -/
+def parsePoolOp (s : String) : Option PV.Pool.Op :=
+  match s.toList with
+  | 'a' :: r => (String.ofList r).toNat?.map PV.Pool.Op.alloc
+  | 'c' :: '-' :: r => (String.ofList r).toNat?.map (fun n => PV.Pool.Op.cont (-(n : Int)))
+  | 'c' :: r => (String.ofList r).toNat?.map (fun n => PV.Pool.Op.cont (n : Int))
+  | _ => none
+
+def poolRun : PV.Pool.Hist → List PV.Pool.Op → List String → Option (PV.Pool.Hist × List String)
+  | h, [], acc => some (h, acc.reverse)
+  | h, o :: os, acc =>
+    match h.step o with
+    | none => none
+    | some h' =>
+      let moved := h'.copies.length != h.copies.length
+      match h'.live.getLast? with
+      | none => none
+      | some l => poolRun h' os (s!"{l.addr.page}:{l.addr.off}{if moved then "m" else ""}" :: acc)
+
+def poolU (op : String) (args : List String) : String :=
+  match op with
+  | "run" =>
+    match args.mapM parsePoolOp with
+    | none => "bad-op"
+    | some ops =>
+      match poolRun PV.Pool.Hist.init ops [] with
+      | none => "bad-op"
+      | some (h, outs) =>
+        let pg := if h.pool.pages.isEmpty then "-" else ",".intercalate (h.pool.pages.map toString)
+        s!"ok {String.join (outs.map (· ++ " "))}| pages={pg} cur={h.pool.cur} intact"
+  | _ => "bad-op"
+
 def dispatch (line : String) : String :=
   match words line with
   | [] => "bad-op"
@@ -738,6 +771,7 @@ def dispatch (line : String) : String :=
     | ["clean", op] => cleanU op args
     | ["bstream", op] => bstreamU op args
     | ["table", op] => table op args
+    | ["pool", op] => poolU op args
     | ["table", "spec", op] => table ("spec." ++ op) args
     | ["b64", "spec", op] => b64 ("spec." ++ op) args
     | _ => "bad-op"
